@@ -52,7 +52,7 @@ func (eng) Cases(seed uint64, tier string) []core.CaseDesc {
 	for i := 0; i < nr; i++ {
 		cs = append(cs, core.CaseDesc{ID: fmt.Sprintf("race/%05d", i), Kind: "race", Seed: seed*2000003 + uint64(i)})
 	}
-	for i := 0; i < 9; i++ {
+	for i := 0; i < 11; i++ {
 		cs = append(cs, core.CaseDesc{ID: fmt.Sprintf("directed/%02d", i), Kind: "directed", Seed: uint64(i)})
 	}
 	return cs
@@ -405,7 +405,16 @@ func (w *world) subscribe(r *rand.Rand, step int, kinds []string) *sub {
 	case "whenargs":
 		st := user[r.IntN(len(user))]
 		s.States = []string{st}
-		s.Args = am.A{"tag": fmt.Sprintf("t%d", r.IntN(3))}
+		// one or two keys: subscriptions whose args are a subset / superset of
+		// another's are common
+		switch r.IntN(3) {
+		case 0:
+			s.Args = am.A{"tag": fmt.Sprintf("t%d", r.IntN(3))}
+		case 1:
+			s.Args = am.A{"grp": fmt.Sprintf("g%d", r.IntN(2))}
+		default:
+			s.Args = am.A{"tag": fmt.Sprintf("t%d", r.IntN(3)), "grp": fmt.Sprintf("g%d", r.IntN(2))}
+		}
 		s.ch = m.WhenArgs(st, s.Args, ctx)
 	case "statectx":
 		st := user[r.IntN(len(user))]
@@ -451,7 +460,7 @@ func runSeq(res *core.CaseResult, c core.CaseDesc, kinds []string, noCtx bool) {
 			op := gen.RandOp(r, spec.Names, []string{"add", "remove", "set", "toggle", "add", "remove", "canadd"})
 			// mutations carry a tag for WhenArgs
 			st := am.S(op.States)
-			args := am.A{"uid": rec.NextUid(), "tag": fmt.Sprintf("t%d", r.IntN(3))}
+			args := am.A{"uid": rec.NextUid(), "tag": fmt.Sprintf("t%d", r.IntN(3)), "grp": fmt.Sprintf("g%d", r.IntN(2))}
 			switch op.Kind {
 			case "add":
 				m.Add(st, args)
@@ -464,7 +473,7 @@ func runSeq(res *core.CaseResult, c core.CaseDesc, kinds []string, noCtx bool) {
 			case "canadd":
 				m.CanAdd(st, args)
 			}
-			what = op.String() + fmt.Sprint(args["tag"])
+			what = op.String() + fmt.Sprint(args["tag"], args["grp"])
 		case x < 16: // subscribe
 			w.absorb()
 			s := w.subscribe(r, i, kinds)
